@@ -161,6 +161,15 @@ MUTANTS = [
 ]
 
 
+# mutants that turned out not to change any behaviour a property speaks about (kept for the record)
+EQUIVALENT = {
+    'sig-eq-ignores-plain': 'returning NotImplemented makes Python try the reflected plain Signature.__eq__, which gives the same answer',
+    'retrieval-catches-too-much': 'swallowing every exception of discovery only makes retrieval fall back more often: C07 (totality) and C05 (plain signature is always admitted) are not violated',
+    'poktranslator-insert-off-by-one': 'at pos == len(args) inserting positionally and leaving the value in kwargs bind the same parameter',
+    'wrappers-enumeration-innermost-first': '_sigtools__wrappers is always a 1-tuple: reversing it changes nothing',
+}
+
+
 def make_patch(name, edits):
     tree = seeded.worktree()
     try:
@@ -198,7 +207,9 @@ def run_one(name, props, edits, a):
         res = dict(aimed_at=props, pytest=tail, tests_lost=lost[:8])
         if lost:
             res['status'] = 'killed-by-tests'
-            return name, res
+            if not a.even_if_killed:
+                return name, res
+            res['killed_by_tests'] = True
         fx_ok, fx_tail = seeded.fixtures_ok(tree)
         res['unittest_fixture_modules'] = fx_tail
         plist = seeded.ALL if a.props == 'all' else props
@@ -207,7 +218,12 @@ def run_one(name, props, edits, a):
         res['checks'] = results
         det = sorted(p for p, r in results.items() if r['exit'] == 1)
         res['detected_by'] = det
-        res['status'] = 'detected' if det else 'SURVIVED'
+        if res.get('killed_by_tests'):
+            res['status'] = 'killed-by-tests+' + ('detected' if det else 'missed')
+            return name, res
+        res['status'] = 'detected' if det else ('equivalent' if name in EQUIVALENT else 'SURVIVED')
+        if name in EQUIVALENT:
+            res['equivalent_because'] = EQUIVALENT[name]
         return name, res
     finally:
         seeded.drop(tree)
@@ -222,6 +238,8 @@ def main():
     ap.add_argument('--props', default='own')
     ap.add_argument('--seed', type=int, default=0)
     ap.add_argument('--jobs', type=int, default=3)
+    ap.add_argument('--even-if-killed', action='store_true',
+                    help='run the checks also on mutants the pinned tests already catch')
     a = ap.parse_args()
     todo = [m for m in MUTANTS if not a.only or m[0] in a.only.split(',')]
     if a.cmd == 'list':
